@@ -8,8 +8,8 @@ import Exetera.Lemmas.JoinCalls
 join-map generators runs out of fuel, for every chunk size ≥ 1 — including runs of equal keys longer than a chunk — and
 that the number of `_partial`/`_remaining` invocations is at most twice that bound. (Each `_partial` call is itself run with
 `partialFuel`, linear in window plus buffer size, and is proved to finish within it as part of the same theorems.)
-The other streamed operations (column mapping, CSV reading, span concatenation, export) have their termination theorems in
-the Props files of C04, C05, C16, C18.
+The other streamed operations have their C12 theorems in `Props/C12Map.lean` (column mapping), `Props/C12Rest.lean` (span
+concatenation, CSV export, CSV reading) and `Props/C12Copy.lean` (chunked copy); all share the namespace `Exetera.Props.C12`.
 -/
 namespace Exetera.Props.C12
 open Exetera Exetera.Join Exetera.Spec
